@@ -25,3 +25,7 @@ for p in "$@"; do
     *) echo "$p: INCONCLUSIVE rc=$rc $(echo "$out" | grep INCONCLUSIVE | head -2)" ;;
   esac
 done
+# every scratch worktree has a path of its own, so each trial leaves a full set of objects in the Go build
+# cache; after ~800 trials that cache had grown to 115 GB, which is what made `vp check` unable to snapshot
+# the sandbox (DESIGN 6.1). Trim it when it passes 15 GB.
+gc=$(go env GOCACHE); sz=$(du -sm "$gc" 2>/dev/null | cut -f1); [ "${sz:-0}" -gt 15000 ] && go clean -cache
